@@ -3,8 +3,20 @@
 VERIF_REPO) and write /verif/seeded/detection.json. Development-time tool."""
 import json, os, subprocess, sys, glob
 extra = {"C07-m1": ["C07", "C08"]}   # the truncation code sits between two properties
-names = sys.argv[1:] or sorted(os.path.basename(d) for d in glob.glob('/verif/seeded/C*-m*'))
+args = [a for a in sys.argv[1:] if not a.startswith('--')]
+names = args or sorted(os.path.basename(d) for d in glob.glob('/verif/seeded/C*-m*'))
 out_path = '/verif/seeded/detection.json'
+for a in sys.argv[1:]:
+    if a.startswith('--out='):
+        out_path = a[len('--out='):]
+if '--reverse' in sys.argv:
+    names = names[::-1]
+if '--skip-done' in sys.argv:
+    done = set()
+    for f in ('/verif/seeded/detection.json', '/verif/seeded/detection_b.json'):
+        if os.path.exists(f):
+            done |= set(json.load(open(f)))
+    names = [n for n in names if n not in done]
 res = json.load(open(out_path)) if os.path.exists(out_path) else {}
 for n in names:
     d = '/verif/seeded/' + n
